@@ -212,45 +212,49 @@ class _randobj:
     
                                     model.add_field(fo._int_field_info.model)
                     
-                                # Now, elaborate the constraints
-                        for f in dir(self):
-                            if not f.startswith("__") and not f.startswith("_int"):
-                                fo = getattr(self, f)
-                                if isinstance(fo, constraint_t):
-                                    clear_exprs()
-                                    block = ConstraintBlockModel(f)
-                                    block.srcinfo = fo.srcinfo
-                                    push_constraint_scope(block)
-                                    try:
-                                        fo.c(self)
-                                    except Exception as e:
-                                        print("Exception while processing constraint: " + str(e))
-                                        # Leave the shared constraint-scope and expression
-                                        # stacks as they were found
-                                        pop_constraint_scope()
+                                # Now, elaborate the constraints: the dynamic ones
+                                # first, since any other block may refer to them
+                        for elab_dynamic in (True, False):
+                            for f in dir(self):
+                                if not f.startswith("__") and not f.startswith("_int"):
+                                    fo = getattr(self, f)
+                                    if isinstance(fo, dynamic_constraint_t) != elab_dynamic:
+                                        continue
+                                    if isinstance(fo, constraint_t):
                                         clear_exprs()
-                                        raise e
-                                    fo.set_model(pop_constraint_scope())
-                                    model.add_constraint(fo.model)
-                                    clear_exprs()
-                                elif isinstance(fo, dynamic_constraint_t):
-                                    clear_exprs()
-                                    block = ConstraintBlockModel(f)
-                                    block.srcinfo = fo.srcinfo
-                                    push_constraint_scope(block)
-                                    try:
-                                        fo.c(self)
-                                    except Exception as e:
-                                        print("Exception while processing constraint: " + str(e))
-                                        # Leave the shared constraint-scope and expression
-                                        # stacks as they were found
-                                        pop_constraint_scope()
+                                        block = ConstraintBlockModel(f)
+                                        block.srcinfo = fo.srcinfo
+                                        push_constraint_scope(block)
+                                        try:
+                                            fo.c(self)
+                                        except Exception as e:
+                                            print("Exception while processing constraint: " + str(e))
+                                            # Leave the shared constraint-scope and expression
+                                            # stacks as they were found
+                                            pop_constraint_scope()
+                                            clear_exprs()
+                                            raise e
+                                        fo.set_model(pop_constraint_scope())
+                                        model.add_constraint(fo.model)
                                         clear_exprs()
-                                        raise e
-                                    fo.set_model(pop_constraint_scope())
-                                    fo.model.is_dynamic = True
-                                    model.add_dynamic_constraint(fo.model)
-                                    clear_exprs()
+                                    elif isinstance(fo, dynamic_constraint_t):
+                                        clear_exprs()
+                                        block = ConstraintBlockModel(f)
+                                        block.srcinfo = fo.srcinfo
+                                        push_constraint_scope(block)
+                                        try:
+                                            fo.c(self)
+                                        except Exception as e:
+                                            print("Exception while processing constraint: " + str(e))
+                                            # Leave the shared constraint-scope and expression
+                                            # stacks as they were found
+                                            pop_constraint_scope()
+                                            clear_exprs()
+                                            raise e
+                                        fo.set_model(pop_constraint_scope())
+                                        fo.model.is_dynamic = True
+                                        model.add_dynamic_constraint(fo.model)
+                                        clear_exprs()
     
                 self._int_field_info.model.name = name
                 return self._int_field_info.model
